@@ -2,6 +2,7 @@ import CacheVerif.Props.C11
 import CacheVerif.Proofs.Twin
 import CacheVerif.Proofs.DeepCache
 import CacheVerif.Proofs.DeepCacheOf
+import CacheVerif.Proofs.DeepLoadM
 /-!
 # C12 — Cache and CacheOf, Map and MapOf are observationally identical twins
 
@@ -96,5 +97,22 @@ end map
 /-! ### Non-vacuity -/
 example : (Cache.step (K := String) (V := Nat) ⟨[("a", ⟨1, 50⟩)], 100, 10, some 1⟩ (.getAndDelete "a")).2.cbs = [(1, "a", 1)] := by decide
 example : (CacheOf.step (K := String) (V := Nat) ⟨[("a", ⟨1, 50⟩)], 100, 10, some 1⟩ (.getAndDelete "a")).2.cbs = [(1, "a", 1)] := by decide
+
+/-! ### the lookup paths of the two tables, printed from the source, agree -/
+
+/-- **`Map.Load` and `MapOf.Load` mean the same**: on heaps that hold the same key/value association in the chains the key
+is sent to - whatever the bucket sizes (3 / 5 slots), the packed words (20-bit top hashes / 7-bit `meta` bytes), the hash
+functions, seeds and chain shapes - the interpreter on the two printed texts returns the same answer -/
+theorem C12_source_loads_agree {K V : Type} [DecidableEq K] (fuel : Nat) (hf : 8 ≤ fuel) (h hm : Deep.T.Heap K V) (key : K)
+    (c : List (Model.Words.BucketOf K V)) (cm : List (Model.Words.BucketM K V))
+    (hc : h.chains[(Proofs.DeepLoad.bidxOf h key).toNat]? = some c) (hne : c ≠ []) (hfuel : c.length ≤ fuel)
+    (hrep : ∀ b ∈ c, Model.Words.RepB (Proofs.DeepLoad.hkOf h) b)
+    (hcm : hm.mchains[(Proofs.DeepLoadM.mbidxOf hm key).toNat]? = some cm) (hnem : cm ≠ []) (hfuelm : cm.length ≤ fuel)
+    (hrepm : ∀ b ∈ cm, Model.Words.RepM (Proofs.DeepLoadM.mhashOf hm) b)
+    (hsame : Model.Table.lookup key (Model.Words.flat c) = Model.Table.lookup key (Model.Words.flatM cm)) :
+    Deep.T.call fuel h Gen.Deep.T_MapOf_Load [.key key] = Deep.T.call fuel hm Gen.Deep.T_Map_Load [.key key] := by
+  rw [Proofs.DeepLoad.load_eq_lookup fuel hf h key c hc hne hfuel hrep,
+    Proofs.DeepLoadM.mload_eq_lookup fuel (by omega) hm key cm hcm hnem hfuelm hrepm, hsame]
+  cases Model.Table.lookup key (Model.Words.flatM cm) <;> rfl
 
 end Props.C12
